@@ -117,6 +117,23 @@ def evaluate(case: Dict[str, Any]) -> Dict[str, Any]:
             c = mats.W.T @ (xc - x) if mats.use_factor else np.zeros(1)
         free_vars, Z, A = get_freev(xc, lb, ub, 1, None, -1, None)
         xbar = np.asarray(subspace_minimization(x.copy(), xc.copy(), free_vars, Z, A, c.copy(), g.copy(), lb, ub, mats), dtype=float)
+    twin_bad = None
+    if case.get("twin") is not None:
+        from harness.kernels import scaled_twin, twin_factors
+        a, b = twin_factors(inp, case["twin"])
+        tw = scaled_twin(inp, a, b)
+        with np.errstate(all="ignore"):
+            xc2 = np.clip(xc * b, tw["lb"], tw["ub"])
+            c2 = tw["mats"].W.T @ (xc2 - tw["x"]) if tw["mats"].use_factor else np.zeros(1)
+            fv2, Z2, A2 = get_freev(xc2, tw["lb"], tw["ub"], 1, None, -1, None)
+            xbar2 = np.asarray(subspace_minimization(tw["x"].copy(), xc2.copy(), fv2, Z2, A2, c2.copy(), tw["g"].copy(), tw["lb"], tw["ub"], tw["mats"]), dtype=float)
+        sc = max(float(np.max(np.abs(xbar))), float(np.max(np.abs(x))), 1e-300)
+        err = float(np.max(np.abs(xbar2 / b - xbar))) / sc
+        out["tags"].append("unit_twin_compared=True")
+        if not err <= 1e-9:
+            twin_bad = {"what": "the subspace point depends on the units: the same problem with the objective multiplied by a power of two and the variables "
+                                "expressed in another power-of-two unit does not give the rescaled point (the box-truncated Newton point is invariant)",
+                        "key": "", "detail": {"objective_factor": a, "variable_factor": b, "rel_err": err}}
     free = (xc != ub) & (xc != lb)
     out["tags"] += [f"n={n}", f"pairs={min(inp['npairs'], 4)}", f"free={'none' if not free.any() else ('all' if free.all() else 'some')}", f"near_bound={bool(case.get('near'))}"]
     B = dense_B(mats, n)
@@ -125,6 +142,8 @@ def evaluate(case: Dict[str, Any]) -> Dict[str, Any]:
     if cond > 1e8 or ev[0] <= 0:
         return {"corr": None, "skipped": "ill-conditioned", "tags": out["tags"], "prop": []}
     # ---- the property on the real output
+    if twin_bad is not None:
+        out["prop"].append(twin_bad)
     if (xbar < lb).any() or (xbar > ub).any():
         out["prop"].append({"what": "subspace point outside the box", "key": ""})
     if (xbar[~free] != xc[~free]).any():
@@ -181,7 +200,8 @@ def run(tier: str, seed: int) -> int:
         for pat in pats:
             cases.append({"seed": seed * 1_000_003 + k, "pattern": list(pat), "perturb": bool(k % 2)})
             k += 1
-    cases += [{"seed": seed * 1_000_003 + k + i, "perturb": bool(i % 3 == 0), "near": bool(i % 6 == 0)} for i in range(nrand)]
+    cases += [{"seed": seed * 1_000_003 + k + i, "perturb": bool(i % 3 == 0), "near": bool(i % 6 == 0),
+               "twin": (i // 2) if (i % 2 == 1 and i % 6 != 0) else None} for i in range(nrand)]
     nins = 300 if tier == "quick" else 4000
     for i in range(nins):
         s_ = seed * 1_000_003 + 800_000 + i
